@@ -229,10 +229,13 @@ func ParseMessage(reader *bufio.Reader) (*Message, error) {
 	if contentLength < 0 {
 		return nil, errors.New("invalid negative Content-Length field")
 	}
-	msg.body = make([]byte, contentLength)
-	if _, err = io.ReadFull(reader, msg.body); err != nil {
+	// read the body incrementally so that the memory allocated follows the bytes actually
+	// received: an absurd Content-Length ends in an EOF error, not in a huge allocation
+	body := bytes.NewBuffer(make([]byte, 0))
+	if _, err = io.CopyN(body, reader, int64(contentLength)); err != nil {
 		return nil, err
 	}
+	msg.body = body.Bytes()
 	return msg, nil
 }
 
